@@ -28,14 +28,15 @@ type FillRow struct {
 		Lbw, Rbw, Fw, Rw, Pw, Tw int
 		Completed, TipOnComplete bool
 	} `json:"p"`
-	NFiller   int  `json:"nFiller"`
-	NRefiller int  `json:"nRefiller"`
-	NPad      int  `json:"nPad"`
-	NEll      int  `json:"nEll"`
-	Spin      int  `json:"spin"`
-	Tip       bool `json:"tip"`
-	Out       int  `json:"out"`
-	Width     int  `json:"width"`
+	NFiller   int   `json:"nFiller"`
+	NRefiller int   `json:"nRefiller"`
+	NPad      int   `json:"nPad"`
+	NEll      int   `json:"nEll"`
+	Spin      int   `json:"spin"`
+	SpinSeq   []int `json:"spinseq"`
+	Tip       bool  `json:"tip"`
+	Out       int   `json:"out"`
+	Width     int   `json:"width"`
 }
 
 // palettes: for every display width a string of that width, distinct per component.
@@ -147,6 +148,20 @@ func checkSpinner(r *FillRow) string {
 		}
 		if w := runewidth.StringWidth(res.out); w != r.Spin {
 			return fmt.Sprintf("spinner width %d, specification %d (%q)", w, r.Spin, res.out)
+		}
+	}
+	// frames of different widths, drawn one after the other by the same filler
+	frames := []string{palette["tip"][0][r.P.Tw], palette["pad"][0][r.P.Pw], palette["r"][0][r.P.Rw]}
+	for i, ss := range []mpb.SpinnerStyleComposer{mpb.SpinnerStyle(frames...), mpb.SpinnerStyle(frames...).PositionLeft(), mpb.SpinnerStyle(frames...).PositionRight()} {
+		f := ss.Build()
+		for k, want := range r.SpinSeq {
+			res := callFill(f, st)
+			if res.hung {
+				return "spinner does-not-terminate"
+			}
+			if w := runewidth.StringWidth(res.out); w != want {
+				return fmt.Sprintf("spinner (position %d) call %d: frame %q drawn %d wide, specification %d (%q)", i, k+1, frames[k%3], w, want, res.out)
+			}
 		}
 	}
 	return ""
